@@ -11,6 +11,8 @@ func (c *Ctx) Run(prop, tier string) {
 		c.RunC03(tier)
 	case "C08":
 		c.RunC08(tier)
+	case "C06":
+		c.RunC06(tier)
 	default:
 		c.Rep.Note("engine e4 has no space for " + prop)
 	}
@@ -23,6 +25,8 @@ func (c *Ctx) Replay(prop, wit string) error {
 		return c.ReplayC07(wit)
 	case "C03", "C08":
 		return c.replaySrc(prop, wit)
+	case "C06":
+		return c.replay06(wit)
 	}
 	return fmt.Errorf("no replay for %s", prop)
 }
